@@ -213,6 +213,8 @@ impl Bdd {
 
     /// Restrict the value of a given [variable][crate::datatypes::Var] to **val**.
     pub fn restrict(&mut self, tree: Term, var: Var, val: bool) -> Term {
+        #[cfg(feature = "verif_hooks")]
+        crate::verif::tick();
         if let Some(result) = self.restrict_cache.get(&(tree, var, val)) {
             *result
         } else {
@@ -249,6 +251,8 @@ impl Bdd {
 
     /// Creates an roBDD, based on the relation of three roBDDs, which are in an `if-then-else` relation.
     fn if_then_else(&mut self, i: Term, t: Term, e: Term) -> Term {
+        #[cfg(feature = "verif_hooks")]
+        crate::verif::tick();
         if i == Term::TOP {
             t
         } else if i == Term::BOT {
@@ -364,6 +368,8 @@ impl Bdd {
                             ),
                         );
                     }
+                    #[cfg(feature = "verif_hooks")]
+                    crate::verif::emit(crate::verif::Event::NodeCreated { index: new_term.0 });
                     new_term
                 }
             }
